@@ -40,7 +40,7 @@ from typing import (
 # 📥 Project-Specific Imports
 # -----------------------------------------------------------------------------
 from .base_interpreter import BaseInterpreter
-from .events import AfterEvent, DoneEvent, Event
+from .events import AfterEvent, DoneEvent, Event, ScopedDoneEvent
 from .exceptions import (
     ActorSpawningError,
     ImplementationMissingError,
@@ -138,6 +138,9 @@ class SyncInterpreter(BaseInterpreter[TContext, TEvent]):
         #: and the thread running that drain.
         self._self_raised: int = 0
         self._drain_thread: Optional[int] = None
+        #: Invoking state and activation for each machine-`src` invocation,
+        #: keyed by invoke id, so its completion can be stamped.
+        self._invoke_scopes: Dict[str, Any] = {}
         self._after_threads: Dict[str, threading.Thread] = {}
         self._after_events: Dict[str, threading.Event] = {}
         #: Cancellation flags for pending delayed sends, released by `stop()`.
@@ -1301,11 +1304,14 @@ class SyncInterpreter(BaseInterpreter[TContext, TEvent]):
             )
             return
 
-        done_event = DoneEvent(
+        done_event: DoneEvent = ScopedDoneEvent(
             type=f"done.invoke.{invoke_id}",
             data=child.context,
             src=invoke_id,
         )
+        scope = self._invoke_scopes.get(invoke_id)
+        if scope is not None:
+            self._scope_event(done_event, scope[0], scope[1])
         logger.info("🏁 Child actor '%s' completed; firing onDone.", child.id)
         self.send(done_event)
 
@@ -1447,6 +1453,10 @@ class SyncInterpreter(BaseInterpreter[TContext, TEvent]):
                 invocation.src,
                 invocation.id,
             )
+            self._invoke_scopes[invocation.id] = (
+                owner_id,
+                self._activation.get(owner_id, 0),
+            )
             self._spawn_actor(
                 ActionDefinition(
                     {
@@ -1485,8 +1495,17 @@ class SyncInterpreter(BaseInterpreter[TContext, TEvent]):
             # 🚀 Execute the synchronous service.
             result = service(self, self.context, invoke_event)
             # ✅ On success, immediately queue a 'done' event with the result.
-            done_event = DoneEvent(
-                f"done.invoke.{invocation.id}", data=result, src=invocation.id
+            #    Stamped with this activation of the invoking state: a
+            #    result that is still queued when the state is left (and
+            #    perhaps re-entered) belongs to an activation that is over
+            #    and must not drive the new one's onDone.
+            done_event = self._scope_event(
+                ScopedDoneEvent(
+                    f"done.invoke.{invocation.id}",
+                    data=result,
+                    src=invocation.id,
+                ),
+                owner_id,
             )
             self.send(done_event)
             logger.info(
@@ -1503,8 +1522,13 @@ class SyncInterpreter(BaseInterpreter[TContext, TEvent]):
                 e,
                 exc_info=True,
             )
-            error_event = DoneEvent(
-                f"error.platform.{invocation.id}", data=e, src=invocation.id
+            error_event = self._scope_event(
+                ScopedDoneEvent(
+                    f"error.platform.{invocation.id}",
+                    data=e,
+                    src=invocation.id,
+                ),
+                owner_id,
             )
             # 🚨 Unhandled service failures must be observable, not just
             #    logged. See BaseInterpreter._fail.
